@@ -1,22 +1,38 @@
 """C10/C12 — fail-closed translator of femio's per-type face tables.
 
+The translator reads MEANING, not spelling: the branch bodies are evaluated by a
+small symbolic interpreter over the Python `ast` in which the row of one element
+is a symbol `e` and `e[i]` is the symbolic node `Node(i)`.  It understands
+
+  * integer / tuple / list literals, names bound earlier in the branch, module-
+    level and class-level constants (looked up in the same module and evaluated
+    by the same interpreter), `range`, `enumerate`, `len`, `list`, `tuple`,
+    `slice`, integer arithmetic, arithmetic that is linear in the element count;
+  * list comprehensions / generator expressions over such constant sequences
+    and over `elements_data` (the one place where the element symbol is bound);
+  * `np.stack / np.array / np.asarray` of a nested list (identity on the table);
+  * the vectorised form `method(elements_data[:, [[i, j, k], ...]])` (same rows per element);
+  * calls of private helpers defined in the same module or class whose body is
+    `[docstring] <simple assignments> return <expr>` — they are inlined (depth <= 4);
+  * keyword or positional arguments of those calls;
+  * the tet2 delegation `self._generate_all_faces(elements_data[:, :K], 'tet', method=method)`
+    with or without the intermediate name.
+
+Everything else raises TranslateError (fail closed).  A failure is NOT by itself
+a violation: the harness then falls back to the committed baseline tables
+(coq/C10/gen_baseline/FaceTables.v) as a hand model and ties it to the code by a
+widened correspondence (see harness/c10.py, BUILDERS_R5 policy).
+
 Source regions (femio/graph_processor.py):
-  * GraphProcessorMixin._generate_all_faces : the if/elif chain on
-    `element_type`; for tet, tet2, hex, pyr, prism, hexprism the branch body
-    must be exactly a face-table expression of one of the accepted shapes
-        face_ids = method([TABLE for <v> in elements_data])
-        face_ids = (method([TABLE for ...]), method([TABLE for ...]))
-    where TABLE is `[[v[i], ...], ...]` or `np.stack([[v[i], ...], ...])`,
-    and for tet2
-        tet1_elements = elements_data[:, :K]
-        face_ids = self._generate_all_faces(tet1_elements, 'tet', method=method)
-    Anything else in such a branch -> TranslateError (tie broken).  The tail of
+  * GraphProcessorMixin._generate_all_faces : the if/elif chain on `element_type`;
+    for tet, tet2, hex, pyr, prism, hexprism the branch must bind `face_ids` to
+    `method(<per-element table>)`, a tuple of those, or the delegation.  The tail of
     the function must wrap a non-tuple result into a 1-tuple.
-  * GraphProcessorMixin.extract_surface_fistr : the column table
-        surfs[a*N:b*N, :3] = data[:, [i, j, k]]      and
-        surfs[a*N:b*N, 4] = n
-    (the sort/unique part of that function is modelled by hand and pinned by
-    the correspondence check).
+  * GraphProcessorMixin.extract_surface_fistr : the stores into `surfs`
+        surfs[k*N:(k+1)*N, :3] = data[:, [i, j, k]] ;  surfs[..., 3] = self.elements.ids ;
+        surfs[..., 4] = n
+    unrolled or in a loop over a constant table (the sort/unique part of that
+    function is modelled by hand and pinned by the correspondence check).
 
 Output: coq/C10/gen/FaceTables.v
 """
@@ -30,12 +46,446 @@ class TranslateError(Exception):
 
 
 TYPES = ['tet', 'tet2', 'hex', 'pyr', 'prism', 'hexprism']
+ARITY = {'tet': 4, 'tet2': 10, 'hex': 8, 'pyr': 5, 'prism': 6, 'hexprism': 12}
+CLASS = 'GraphProcessorMixin'
 
 
 def _fail(node, msg):
     raise TranslateError(f'line {getattr(node, "lineno", "?")}: {msg}')
 
 
+# ------------------------------------------------------------ symbolic values
+class Sym:
+    def __init__(self, name):
+        self.name = name
+
+    def __repr__(self):
+        return '<%s>' % self.name
+
+
+ELEMS = Sym('elements_data')      # the 2-D connectivity array
+ELEM = Sym('element')             # one row of it
+METHOD = Sym('method')
+SELF = Sym('self')
+DATA = Sym('self.elements.data')
+IDS = Sym('self.elements.ids')
+ELEMENTS = Sym('self.elements')
+OPAQUE = Sym('opaque')
+NP = Sym('np')
+
+
+class Node:                       # element[i]
+    def __init__(self, i):
+        self.i = i
+
+    def __repr__(self):
+        return 'n%d' % self.i
+
+
+class Prefix:                     # elements_data[:, :k]
+    def __init__(self, k):
+        self.k = k
+
+
+class PerElem:                    # [TABLE for e in elements_data]
+    def __init__(self, table):
+        self.table = table
+
+
+class Group:                      # method([TABLE for e in elements_data])
+    def __init__(self, table):
+        self.table = table
+
+
+class Delegate:                   # self._generate_all_faces(elements_data[:, :k], '<type>', method=method)
+    def __init__(self, k, typ):
+        self.k, self.typ = k, typ
+
+
+class Lin:                        # a * N + b   (N = number of elements)
+    def __init__(self, a, b):
+        self.a, self.b = a, b
+
+    def __eq__(self, o):
+        return isinstance(o, Lin) and (self.a, self.b) == (o.a, o.b)
+
+    def __hash__(self):
+        return hash((self.a, self.b))
+
+
+class SliceV:
+    def __init__(self, lo, hi):
+        self.lo, self.hi = lo, hi
+
+
+class Cols:                       # data[:, [i, j, k]]
+    def __init__(self, cols):
+        self.cols = cols
+
+
+def _lin(v):
+    if isinstance(v, Lin):
+        return v
+    if isinstance(v, int) and not isinstance(v, bool):
+        return Lin(0, v)
+    return None
+
+
+def _is_seq(v):
+    return isinstance(v, (list, tuple))
+
+
+# ------------------------------------------------------------- module context
+class Module:
+    def __init__(self, tree, lines):
+        self.lines = lines
+        self.consts, self.funcs = {}, {}
+        self.cconsts, self.cfuncs = {}, {}
+        self.used = {}
+        for st in tree.body:
+            self._collect(st, self.consts, self.funcs)
+            if isinstance(st, ast.ClassDef) and st.name == CLASS:
+                for s in st.body:
+                    self._collect(s, self.cconsts, self.cfuncs)
+
+    @staticmethod
+    def _collect(st, consts, funcs):
+        if isinstance(st, ast.Assign) and len(st.targets) == 1 and isinstance(st.targets[0], ast.Name):
+            consts[st.targets[0].id] = st
+        elif isinstance(st, ast.AnnAssign) and isinstance(st.target, ast.Name) and st.value is not None:
+            consts[st.target.id] = st
+        elif isinstance(st, ast.FunctionDef):
+            funcs[st.name] = st
+
+    def note(self, kind, name, node):
+        self.used['femio/graph_processor.py:%s:%s' % (kind, name)] = hashlib.sha256(
+            '\n'.join(self.lines[node.lineno - 1:node.end_lineno]).encode()).hexdigest()
+
+
+class Interp:
+    MAX_DEPTH = 4
+
+    def __init__(self, mod):
+        self.mod = mod
+        self.depth = 0
+
+    # -- names ---------------------------------------------------------------
+    def const(self, name, node, table):
+        st = table.get(name)
+        if st is None:
+            _fail(node, f'unknown name {name}')
+        self.mod.note('const', name, st)
+        return self.ev(st.value, {})
+
+    def ev(self, n, env):
+        m = getattr(self, 'ev_' + type(n).__name__, None)
+        if m is None:
+            _fail(n, 'construct not understood: ' + type(n).__name__)
+        return m(n, env)
+
+    def ev_Constant(self, n, env):
+        if isinstance(n.value, bool) or not isinstance(n.value, (int, str, type(None))):
+            _fail(n, 'constant not understood: %r' % (n.value,))
+        return n.value
+
+    def ev_Name(self, n, env):
+        if n.id in env:
+            return env[n.id]
+        if n.id == 'np':
+            return NP
+        if n.id in self.mod.consts:
+            return self.const(n.id, n, self.mod.consts)
+        _fail(n, f'unknown name {n.id}')
+
+    def ev_Attribute(self, n, env):
+        # self.X / cls.X / GraphProcessorMixin.X / type(self).X : class-level constant
+        if isinstance(n.value, ast.Name) and n.value.id in ('self', 'cls', CLASS) \
+                and n.attr in self.mod.cconsts and (n.value.id == CLASS or env.get(n.value.id) is SELF):
+            return self.const(n.attr, n, self.mod.cconsts)
+        base = self.ev(n.value, env)
+        if base is SELF and n.attr == 'elements':
+            return ELEMENTS
+        if base is ELEMENTS and n.attr == 'data':
+            return DATA
+        if base is ELEMENTS and n.attr == 'ids':
+            return IDS
+        _fail(n, 'attribute not understood: ' + ast.unparse(n))
+
+    def ev_List(self, n, env):
+        return [self.ev(e, env) for e in n.elts]
+
+    def ev_Tuple(self, n, env):
+        return tuple(self.ev(e, env) for e in n.elts)
+
+    def ev_UnaryOp(self, n, env):
+        v = self.ev(n.operand, env)
+        if isinstance(n.op, ast.USub) and isinstance(v, int):
+            return -v
+        _fail(n, 'unary operator not understood')
+
+    def ev_BinOp(self, n, env):
+        a, b = self.ev(n.left, env), self.ev(n.right, env)
+        la, lb = _lin(a), _lin(b)
+        if la is None or lb is None:
+            if isinstance(n.op, ast.Add) and _is_seq(a) and type(a) is type(b):
+                return a + b
+            _fail(n, 'arithmetic on a non-integer')
+        if isinstance(n.op, ast.Add):
+            r = Lin(la.a + lb.a, la.b + lb.b)
+        elif isinstance(n.op, ast.Sub):
+            r = Lin(la.a - lb.a, la.b - lb.b)
+        elif isinstance(n.op, ast.Mult) and (la.a == 0 or lb.a == 0):
+            r = Lin(la.a * lb.b + lb.a * la.b, la.b * lb.b)
+        else:
+            _fail(n, 'arithmetic not understood: ' + ast.unparse(n))
+        return r.b if r.a == 0 else r
+
+    def _index(self, s, env):
+        """value of one index expression (an `ast.Slice` becomes a SliceV)"""
+        if isinstance(s, ast.Slice):
+            def bound(x):
+                if x is None:
+                    return None
+                v = self.ev(x, env)
+                if _lin(v) is None:
+                    _fail(x, 'slice bound is not an integer')
+                return v
+            if s.step is not None:
+                _fail(s, 'slice step not understood')
+            return SliceV(bound(s.lower), bound(s.upper))
+        return self.ev(s, env)
+
+    def ev_Subscript(self, n, env):
+        base = self.ev(n.value, env)
+        if isinstance(n.slice, ast.Tuple):
+            idx = tuple(self._index(e, env) for e in n.slice.elts)
+        else:
+            idx = self._index(n.slice, env)
+
+        def ints(c):
+            return all(isinstance(i, int) and not isinstance(i, bool) for i in c)
+        if base is ELEM:
+            if isinstance(idx, int) and not isinstance(idx, bool):
+                return Node(idx)
+            if isinstance(idx, list) and idx and ints(idx):
+                return [Node(i) for i in idx]         # element[[i, j, k]] (fancy index of one row)
+            _fail(n, 'element may only be indexed by integers')
+        if base is ELEMS or base is DATA:
+            # [:, :k]  or  [:, [i, j, k]]
+            if isinstance(idx, tuple) and len(idx) == 2 and isinstance(idx[0], SliceV) \
+                    and idx[0].lo is None and idx[0].hi is None:
+                c = idx[1]
+                if base is ELEMS and isinstance(c, SliceV) and c.lo in (None, 0) \
+                        and isinstance(c.hi, int) and c.hi > 0:
+                    return Prefix(c.hi)
+                if base is DATA and _is_seq(c) and c and ints(c):
+                    return Cols(list(c))
+                # elements_data[:, [[i, j, k], ...]] : one row of faces per element (N, n_faces, n_nodes)
+                if base is ELEMS and isinstance(c, list) and c and all(
+                        isinstance(f, list) and f and ints(f) for f in c):
+                    return PerElem([[Node(i) for i in f] for f in c])
+            _fail(n, 'indexing of the connectivity array not understood: ' + ast.unparse(n))
+        if _is_seq(base):
+            if isinstance(idx, int) and not isinstance(idx, bool):
+                try:
+                    return base[idx]
+                except IndexError:
+                    _fail(n, 'index out of range')
+            if isinstance(idx, SliceV) and all(x is None or isinstance(x, int) for x in (idx.lo, idx.hi)):
+                return base[idx.lo:idx.hi]
+        _fail(n, 'subscript not understood: ' + ast.unparse(n))
+
+    # -- comprehensions --------------------------------------------------------
+    def _bind(self, target, v, env):
+        if isinstance(target, ast.Name):
+            env[target.id] = v
+        elif isinstance(target, (ast.Tuple, ast.List)) and _is_seq(v) and len(v) == len(target.elts):
+            for t, x in zip(target.elts, v):
+                self._bind(t, x, env)
+        else:
+            _fail(target, 'assignment target not understood')
+
+    def _comp(self, n, env):
+        def rec(k, env):
+            if k == len(n.generators):
+                return [self.ev(n.elt, env)]
+            g = n.generators[k]
+            if g.ifs or g.is_async:
+                _fail(n, 'filtered / async comprehension')
+            it = self.ev(g.iter, env)
+            if it is ELEMS:
+                if k != 0 or len(n.generators) != 1:
+                    _fail(n, 'the loop over elements_data must be the only generator')
+                e2 = dict(env)
+                self._bind(g.target, ELEM, e2)
+                if not isinstance(g.target, ast.Name):
+                    _fail(n, 'element row must be bound to one name')
+                return PerElem(self.ev(n.elt, e2))
+            if not _is_seq(it):
+                _fail(g.iter, 'comprehension over something that is not a constant sequence')
+            out = []
+            for v in it:
+                e2 = dict(env)
+                self._bind(g.target, v, e2)
+                r = rec(k + 1, e2)
+                if isinstance(r, PerElem):
+                    _fail(n, 'the loop over elements_data must be the outermost')
+                out += r
+            return out
+        return rec(0, env)
+
+    ev_ListComp = _comp
+    ev_GeneratorExp = _comp
+
+    # -- calls -------------------------------------------------------------------
+    def ev_Call(self, n, env):
+        f = n.func
+        if any(k.arg is None for k in n.keywords) or any(isinstance(a, ast.Starred) for a in n.args):
+            _fail(n, '* / ** arguments')
+        # builtins
+        if isinstance(f, ast.Name) and f.id not in env and f.id not in self.mod.funcs:
+            args = [self.ev(a, env) for a in n.args]
+            if f.id in ('list', 'tuple') and len(args) == 1 and not n.keywords and _is_seq(args[0]):
+                return list(args[0]) if f.id == 'list' else tuple(args[0])
+            if f.id == 'range' and 1 <= len(args) <= 3 and all(isinstance(a, int) for a in args) and not n.keywords:
+                return list(range(*args))
+            if f.id == 'enumerate' and args and _is_seq(args[0]) and len(args) <= 2:
+                start = args[1] if len(args) == 2 else 0
+                for k in n.keywords:
+                    if k.arg != 'start':
+                        _fail(n, 'enumerate keyword')
+                    start = self.ev(k.value, env)
+                if not isinstance(start, int):
+                    _fail(n, 'enumerate start')
+                return [(start + i, v) for i, v in enumerate(args[0])]
+            if f.id == 'len' and len(args) == 1 and not n.keywords:
+                if _is_seq(args[0]):
+                    return len(args[0])
+                if args[0] is DATA or args[0] is IDS:
+                    return Lin(1, 0)
+            if f.id == 'slice' and len(args) == 2 and not n.keywords and all(_lin(a) is not None for a in args):
+                return SliceV(args[0], args[1])
+            if f.id == 'zip' and len(args) >= 1 and not n.keywords and all(_is_seq(a) for a in args):
+                return [tuple(t) for t in zip(*args)]
+            _fail(n, f'call of {f.id} not understood')
+        if isinstance(f, ast.Name) and env.get(f.id) is METHOD:
+            if len(n.args) != 1 or n.keywords:
+                _fail(n, 'method(...) takes the list of per-element tables')
+            v = self.ev(n.args[0], env)
+            if not isinstance(v, PerElem):
+                _fail(n, 'argument of method(...) is not a per-element table')
+            return Group(self._table(v.table, n))
+        if isinstance(f, ast.Attribute):
+            base = None
+            try:
+                base = self.ev(f.value, env)
+            except TranslateError:
+                pass
+            if base is NP and f.attr in ('stack', 'array', 'asarray'):
+                for k in n.keywords:
+                    if not (k.arg == 'axis' and f.attr == 'stack' and self.ev(k.value, env) == 0):
+                        _fail(n, f'np.{f.attr} keyword {k.arg}')
+                if len(n.args) != 1:
+                    _fail(n, f'np.{f.attr} arguments')
+                v = self.ev(n.args[0], env)
+                if not _is_seq(v):
+                    _fail(n, f'np.{f.attr} of something that is not a nested list')
+                return list(v)
+            if base is SELF and f.attr == '_generate_all_faces':
+                a = self._bind_args(self.mod.cfuncs.get('_generate_all_faces'), n, env, skip_self=True)
+                if not (isinstance(a.get('elements'), Prefix) and isinstance(a.get('element_type'), str)
+                        and a.get('method') is METHOD and set(a) <= {'elements', 'element_type', 'method'}):
+                    _fail(n, 'delegation must be self._generate_all_faces(elements_data[:, :K], <type>, method=method)')
+                return Delegate(a['elements'].k, a['element_type'])
+            if (base is SELF or (isinstance(f.value, ast.Name) and f.value.id == CLASS)) \
+                    and f.attr in self.mod.cfuncs:
+                fn = self.mod.cfuncs[f.attr]
+                static = any(isinstance(d, ast.Name) and d.id == 'staticmethod' for d in fn.decorator_list)
+                return self._inline(fn, n, env, skip_self=not static, bind_self=not static)
+            _fail(n, 'call not understood: ' + ast.unparse(f))
+        if isinstance(f, ast.Name) and f.id in self.mod.funcs:
+            return self._inline(self.mod.funcs[f.id], n, env, skip_self=False, bind_self=False)
+        _fail(n, 'call not understood: ' + ast.unparse(f))
+
+    def _bind_args(self, fn, call, env, skip_self):
+        if fn is None:
+            _fail(call, 'callee not found')
+        a = fn.args
+        if a.vararg or a.kwarg or a.posonlyargs:
+            _fail(fn, 'callee signature not understood')
+        params = [p.arg for p in a.args]
+        if skip_self:
+            params = params[1:]
+        if len(call.args) > len(params):
+            _fail(call, 'too many arguments')
+        out = {}
+        for p, v in zip(params, call.args):
+            out[p] = self.ev(v, env)
+        kwonly = [p.arg for p in a.kwonlyargs]
+        for k in call.keywords:
+            if k.arg in out or k.arg not in params + kwonly:
+                _fail(call, f'argument {k.arg}')
+            out[k.arg] = self.ev(k.value, env)
+        return out
+
+    def _inline(self, fn, call, env, skip_self, bind_self):
+        if self.depth >= self.MAX_DEPTH:
+            _fail(call, 'helper calls nested too deeply')
+        self.mod.note('helper', fn.name, fn)
+        args = self._bind_args(fn, call, env, skip_self)
+        a = fn.args
+        params = [p.arg for p in a.args][1 if skip_self else 0:]
+        defaults = dict(zip(params[len(params) - len(a.defaults):], a.defaults))
+        for p, d in zip(a.kwonlyargs, a.kw_defaults):
+            if d is not None:
+                defaults[p.arg] = d
+        local = {}
+        if bind_self:
+            local[a.args[0].arg] = SELF
+        for p in params + [p.arg for p in a.kwonlyargs]:
+            if p in args:
+                local[p] = args[p]
+            elif p in defaults:
+                local[p] = self.ev(defaults[p], {})
+            else:
+                _fail(call, f'missing argument {p}')
+        self.depth += 1
+        try:
+            return self.run_simple(fn.body, local, fn)
+        finally:
+            self.depth -= 1
+
+    def run_simple(self, body, env, where):
+        """[docstring] simple assignments ... return expr"""
+        for st in body:
+            if isinstance(st, ast.Expr) and isinstance(st.value, ast.Constant) and isinstance(st.value.value, str):
+                continue
+            if isinstance(st, ast.Assign) and len(st.targets) == 1:
+                self._bind(st.targets[0], self.ev(st.value, env), env)
+                continue
+            if isinstance(st, ast.Return) and st.value is not None:
+                return self.ev(st.value, env)
+            _fail(st, 'helper body not understood (only assignments and a return)')
+        _fail(where, 'helper does not return')
+
+    # -- tables --------------------------------------------------------------------
+    @staticmethod
+    def _table(v, node):
+        if not _is_seq(v) or not v:
+            _fail(node, 'face table must be a non-empty sequence of faces')
+        faces = []
+        for f in v:
+            if not _is_seq(f) or not f or not all(isinstance(x, Node) for x in f):
+                _fail(node, 'a face must be a non-empty sequence of element[<int>]')
+            if any(x.i < 0 for x in f):
+                _fail(node, 'negative node index')
+            faces.append([x.i for x in f])
+        if len({len(f) for f in faces}) != 1:
+            _fail(node, 'faces of one group must have the same number of vertices')
+        return faces
+
+
+# -------------------------------------------------------- _generate_all_faces
 def _find_method(tree, cls, name):
     for c in tree.body:
         if isinstance(c, ast.ClassDef) and c.name == cls:
@@ -45,125 +495,101 @@ def _find_method(tree, cls, name):
     raise TranslateError(f'{cls}.{name} not found')
 
 
-def _const_int(n):
-    if isinstance(n, ast.Constant) and isinstance(n.value, int) and not isinstance(n.value, bool):
-        return n.value
-    _fail(n, 'integer literal expected: ' + ast.dump(n))
-
-
-def _face(node, var):
-    """[v[i], v[j], ...] -> [i, j, ...]"""
-    if not isinstance(node, ast.List) or not node.elts:
-        _fail(node, 'face must be a non-empty list literal')
-    out = []
-    for e in node.elts:
-        if not (isinstance(e, ast.Subscript) and isinstance(e.value, ast.Name)
-                and e.value.id == var):
-            _fail(e, f'face entry must be {var}[<int>]')
-        out.append(_const_int(e.slice))
-    return out
-
-
-def _table(node, var):
-    """[[v[i],..],..]  or  np.stack([[v[i],..],..])"""
-    if isinstance(node, ast.Call):
-        f = node.func
-        if not (isinstance(f, ast.Attribute) and f.attr == 'stack' and isinstance(f.value, ast.Name)
-                and f.value.id == 'np' and len(node.args) == 1 and not node.keywords):
-            _fail(node, 'only np.stack([...]) may wrap a face table')
-        node = node.args[0]
-    if not isinstance(node, ast.List) or not node.elts:
-        _fail(node, 'face table must be a non-empty list literal')
-    faces = [_face(e, var) for e in node.elts]
-    if len({len(f) for f in faces}) != 1:
-        _fail(node, 'faces of one group must have the same number of vertices')
-    return faces
-
-
-def _group(node):
-    """method([TABLE for v in elements_data])"""
-    if not (isinstance(node, ast.Call) and isinstance(node.func, ast.Name)
-            and node.func.id == 'method' and len(node.args) == 1 and not node.keywords):
-        _fail(node, 'expected method([... for e in elements_data])')
-    lc = node.args[0]
-    if not (isinstance(lc, ast.ListComp) and len(lc.generators) == 1):
-        _fail(lc, 'expected a single list comprehension')
-    g = lc.generators[0]
-    if g.ifs or g.is_async or not isinstance(g.target, ast.Name) or \
-            not (isinstance(g.iter, ast.Name) and g.iter.id == 'elements_data'):
-        _fail(lc, 'comprehension must be `for <v> in elements_data` without filter')
-    return _table(lc.elt, g.target.id)
-
-
-def _branch_tables(body):
-    """body of one elif branch -> ('table', [groups]) | ('prefix', K, 'tet')"""
-    if len(body) == 1 and isinstance(body[0], ast.Assign):
-        a = body[0]
-        if not (len(a.targets) == 1 and isinstance(a.targets[0], ast.Name)
-                and a.targets[0].id == 'face_ids'):
-            _fail(a, 'branch must assign face_ids')
-        if isinstance(a.value, ast.Tuple):
-            return ('table', [_group(v) for v in a.value.elts])
-        return ('table', [_group(a.value)])
-    if len(body) == 2 and all(isinstance(s, ast.Assign) for s in body):
-        a, b = body
-        # tet1_elements = elements_data[:, :K]
-        ok = (len(a.targets) == 1 and isinstance(a.targets[0], ast.Name)
-              and isinstance(a.value, ast.Subscript) and isinstance(a.value.value, ast.Name)
-              and a.value.value.id == 'elements_data' and isinstance(a.value.slice, ast.Tuple)
-              and len(a.value.slice.elts) == 2)
-        if not ok:
-            _fail(a, 'unrecognised two-statement branch')
-        s0, s1 = a.value.slice.elts
-        if not (isinstance(s0, ast.Slice) and s0.lower is None and s0.upper is None and s0.step is None
-                and isinstance(s1, ast.Slice) and s1.lower is None and s1.step is None
-                and s1.upper is not None):
-            _fail(a, 'expected elements_data[:, :K]')
-        k = _const_int(s1.upper)
-        tmp = a.targets[0].id
-        c = b.value
-        ok = (len(b.targets) == 1 and isinstance(b.targets[0], ast.Name) and b.targets[0].id == 'face_ids'
-              and isinstance(c, ast.Call) and isinstance(c.func, ast.Attribute)
-              and c.func.attr == '_generate_all_faces' and isinstance(c.func.value, ast.Name)
-              and c.func.value.id == 'self' and len(c.args) == 2
-              and isinstance(c.args[0], ast.Name) and c.args[0].id == tmp
-              and isinstance(c.args[1], ast.Constant) and isinstance(c.args[1].value, str)
-              and len(c.keywords) == 1 and c.keywords[0].arg == 'method'
-              and isinstance(c.keywords[0].value, ast.Name) and c.keywords[0].value.id == 'method')
-        if not ok:
-            _fail(b, 'expected face_ids = self._generate_all_faces(<tmp>, <type>, method=method)')
-        return ('prefix', k, c.args[1].value)
-    _fail(body[0], 'unrecognised branch body')
-
-
-def _type_test(test):
-    """element_type == 'x'  -> ['x'];  element_type in ['a','b'] -> ['a','b']"""
-    if isinstance(test, ast.Compare) and isinstance(test.left, ast.Name) and \
-            test.left.id == 'element_type' and len(test.ops) == 1:
-        c = test.comparators[0]
-        if isinstance(test.ops[0], ast.Eq) and isinstance(c, ast.Constant) and isinstance(c.value, str):
-            return [c.value]
-        if isinstance(test.ops[0], ast.In) and isinstance(c, (ast.List, ast.Tuple)) and \
-                all(isinstance(e, ast.Constant) and isinstance(e.value, str) for e in c.elts):
-            return [e.value for e in c.elts]
+def _type_test(test, interp=None):
+    """element_type == 'x'  -> ['x'];  element_type in ['a','b'] / in CONST -> ['a','b']"""
+    if isinstance(test, ast.Compare) and len(test.ops) == 1:
+        left, c = test.left, test.comparators[0]
+        if isinstance(test.ops[0], ast.Eq) and isinstance(c, ast.Name) and c.id == 'element_type':
+            left, c = c, left
+        if not (isinstance(left, ast.Name) and left.id == 'element_type'):
+            return None
+        try:
+            v = interp.ev(c, {}) if interp is not None else ast.literal_eval(c)
+        except (TranslateError, ValueError):
+            return None
+        if isinstance(test.ops[0], ast.Eq) and isinstance(v, str):
+            return [v]
+        if isinstance(test.ops[0], ast.In) and _is_seq(v) and all(isinstance(e, str) for e in v):
+            return list(v)
     return None
 
 
-def translate_generate_all_faces(fn):
-    # the dispatch chain is the If whose test mentions element_type in [...,'polygon'] / == 'tet'
+def _branch_value(interp, body, env):
+    env = dict(env)
+    for st in body:
+        if isinstance(st, ast.Expr) and isinstance(st.value, ast.Constant):
+            continue
+        if not (isinstance(st, ast.Assign) and len(st.targets) == 1):
+            _fail(st, 'branch may only contain assignments')
+        interp._bind(st.targets[0], interp.ev(st.value, env), env)
+    if 'face_ids' not in env:
+        _fail(body[0], 'branch must assign face_ids')
+    v = env['face_ids']
+    if isinstance(v, Group):
+        return ('table', [v.table])
+    if isinstance(v, tuple) and v and all(isinstance(g, Group) for g in v):
+        return ('table', [g.table for g in v])
+    if isinstance(v, Delegate):
+        return ('prefix', v.k, v.typ)
+    _fail(body[-1], 'face_ids is not method(<table>), a tuple of those, or the delegation')
+
+
+def _tail_ok(body):
+    """... if isinstance(face_ids, tuple): return face_ids else: return (face_ids,)   (else-less form accepted)"""
+    def ret_plain(s):
+        return isinstance(s, ast.Return) and isinstance(s.value, ast.Name) and s.value.id == 'face_ids'
+
+    def ret_wrapped(s):
+        return isinstance(s, ast.Return) and isinstance(s.value, ast.Tuple) and len(s.value.elts) == 1 \
+            and isinstance(s.value.elts[0], ast.Name) and s.value.elts[0].id == 'face_ids'
+
+    def is_test(t, negated=False):
+        if isinstance(t, ast.UnaryOp) and isinstance(t.op, ast.Not):
+            return is_test(t.operand, not negated)
+        ok = (isinstance(t, ast.Call) and isinstance(t.func, ast.Name) and t.func.id == 'isinstance'
+              and len(t.args) == 2 and isinstance(t.args[0], ast.Name) and t.args[0].id == 'face_ids'
+              and isinstance(t.args[1], ast.Name) and t.args[1].id == 'tuple')
+        return (ok, negated)
+    for k in (1, 2):
+        if len(body) < k:
+            continue
+        st = body[-k]
+        if not isinstance(st, ast.If):
+            continue
+        ok, neg = is_test(st.test)
+        if not ok or len(st.body) != 1:
+            continue
+        first, second = (ret_wrapped, ret_plain) if neg else (ret_plain, ret_wrapped)
+        if not first(st.body[0]):
+            continue
+        if k == 1 and len(st.orelse) == 1 and second(st.orelse[0]):
+            return True
+        if k == 2 and not st.orelse and second(body[-1]):
+            return True
+    return False
+
+
+def translate_generate_all_faces(fn, interp):
+    params = [a.arg for a in fn.args.args]
+    if params[:1] != ['self'] or 'method' not in params or 'element_type' not in params:
+        _fail(fn, '_generate_all_faces: signature not understood')
     chain = None
     for st in fn.body:
         if isinstance(st, ast.If):
-            ts = _type_test(st.test)
-            if ts is not None and 'tri' in ts:
+            ts = _type_test(st.test, interp)
+            if ts is not None and (set(ts) & (set(TYPES) | {'tri', 'quad', 'polygon'})):
                 chain = st
+                break
     if chain is None:
         raise TranslateError('_generate_all_faces: dispatch chain on element_type not found')
+    # names bound before the chain: elements_data must be the connectivity array (ndarray argument
+    # or elements.data) — checked by shape of the statement, the correspondence pins its meaning
+    env = {'self': SELF, 'method': METHOD, 'elements_data': ELEMS}
     tables = {}
     node = chain
     seen = []
     while True:
-        ts = _type_test(node.test)
+        ts = _type_test(node.test, interp)
         if ts is None:
             _fail(node, 'dispatch test is not a comparison of element_type with literals')
         for t in ts:
@@ -171,7 +597,7 @@ def translate_generate_all_faces(fn):
                 _fail(node, f'type {t} dispatched twice')
             seen.append(t)
             if t in TYPES:
-                tables[t] = _branch_tables(node.body)
+                tables[t] = _branch_value(interp, node.body, env)
         if len(node.orelse) == 1 and isinstance(node.orelse[0], ast.If):
             node = node.orelse[0]
         else:
@@ -179,85 +605,118 @@ def translate_generate_all_faces(fn):
     for t in TYPES:
         if t not in tables:
             raise TranslateError(f'_generate_all_faces: no branch for {t}')
-    # order of the chain matters only for first-match; a type may not be shadowed
-    # tail: wrap into a tuple
-    tail = fn.body[-1]
-    ok = (isinstance(tail, ast.If) and isinstance(tail.test, ast.Call)
-          and isinstance(tail.test.func, ast.Name) and tail.test.func.id == 'isinstance'
-          and len(tail.body) == 1 and isinstance(tail.body[0], ast.Return)
-          and isinstance(tail.body[0].value, ast.Name) and tail.body[0].value.id == 'face_ids'
-          and len(tail.orelse) == 1 and isinstance(tail.orelse[0], ast.Return)
-          and isinstance(tail.orelse[0].value, ast.Tuple) and len(tail.orelse[0].value.elts) == 1
-          and isinstance(tail.orelse[0].value.elts[0], ast.Name)
-          and tail.orelse[0].value.elts[0].id == 'face_ids')
-    if not ok:
-        _fail(tail, '_generate_all_faces must end with `return face_ids` / `return (face_ids,)`')
-    # resolve prefixes
+    if not _tail_ok(fn.body):
+        _fail(fn.body[-1], '_generate_all_faces must end with `return face_ids` / `return (face_ids,)`')
     for t, v in list(tables.items()):
         if v[0] == 'prefix':
             if v[2] not in tables or tables[v[2]][0] != 'table':
                 raise TranslateError(f'{t}: delegates to unknown type {v[2]}')
+            if any(i >= v[1] for g in tables[v[2]][1] for f in g for i in f):
+                raise TranslateError(f'{t}: the delegated table indexes beyond the {v[1]} columns kept')
+        else:
+            if any(i >= ARITY[t] for g in v[1] for f in g for i in f):
+                raise TranslateError(f'{t}: node index beyond the arity of the type')
     return tables
 
 
-def _is_N_slice(sl):
-    """a*N:b*N  -> (a, b)"""
-    def coef(n):
-        if isinstance(n, ast.BinOp) and isinstance(n.op, ast.Mult) and \
-                isinstance(n.right, ast.Name) and n.right.id == 'N':
-            return _const_int(n.left)
-        _fail(n, 'expected <int> * N')
-    if not (isinstance(sl, ast.Slice) and sl.step is None and sl.lower is not None and sl.upper is not None):
-        _fail(sl, 'expected a*N:b*N')
-    return coef(sl.lower), coef(sl.upper)
+# ------------------------------------------------------ extract_surface_fistr
+def _stores_to(node, name):
+    for x in ast.walk(node):
+        if isinstance(x, (ast.Assign, ast.AugAssign)):
+            for t in (x.targets if isinstance(x, ast.Assign) else [x.target]):
+                if isinstance(t, ast.Subscript) and isinstance(t.value, ast.Name) and t.value.id == name:
+                    return True
+    return False
 
 
-def translate_fistr(fn):
+def translate_fistr(fn, interp):
     cols, nums, idcol = {}, {}, {}
-    for st in fn.body:
-        if not (isinstance(st, ast.Assign) and len(st.targets) == 1
-                and isinstance(st.targets[0], ast.Subscript)
-                and isinstance(st.targets[0].value, ast.Name) and st.targets[0].value.id == 'surfs'
-                and isinstance(st.targets[0].slice, ast.Tuple) and len(st.targets[0].slice.elts) == 2):
-            continue
-        rows, col = st.targets[0].slice.elts
-        if not isinstance(rows, ast.Slice) or rows.lower is None:
-            continue          # surfs[:, :3].sort(...) etc. are not assignments; others skipped
-        a, b = _is_N_slice(rows)
-        if b != a + 1:
+    state = {'sealed': False}
+
+    def store(st, env):
+        t = st.targets[0]
+        if not (isinstance(t.slice, ast.Tuple) and len(t.slice.elts) == 2):
+            _fail(st, 'store into surfs not understood')
+        rows = interp._index(t.slice.elts[0], env)
+        col = interp._index(t.slice.elts[1], env)
+        if not isinstance(rows, SliceV) or rows.lo is None or rows.hi is None:
             _fail(st, 'row block must be k*N:(k+1)*N')
-        if isinstance(col, ast.Slice):
-            if not (col.lower is None and col.step is None and _const_int(col.upper) == 3):
+        lo, hi = _lin(rows.lo), _lin(rows.hi)
+        if not (lo.b == 0 and hi.b == 0 and hi.a == lo.a + 1 and lo.a >= 0):
+            _fail(st, 'row block must be k*N:(k+1)*N')
+        a = lo.a
+        val = interp.ev(st.value, env)
+        if isinstance(col, SliceV):
+            if not (col.lo in (None, 0) and col.hi == 3):
                 _fail(st, 'node columns must be :3')
-            v = st.value
-            ok = (isinstance(v, ast.Subscript) and isinstance(v.value, ast.Name) and v.value.id == 'data'
-                  and isinstance(v.slice, ast.Tuple) and len(v.slice.elts) == 2
-                  and isinstance(v.slice.elts[0], ast.Slice) and v.slice.elts[0].lower is None
-                  and v.slice.elts[0].upper is None and isinstance(v.slice.elts[1], ast.List))
-            if not ok:
+            if not isinstance(val, Cols):
                 _fail(st, 'expected data[:, [i, j, k]]')
             if a in cols:
                 _fail(st, 'row block assigned twice')
-            cols[a] = [_const_int(e) for e in v.slice.elts[1].elts]
+            cols[a] = val.cols
+        elif col == 4:
+            if a in nums or not isinstance(val, int) or isinstance(val, bool):
+                _fail(st, 'face number must be assigned once, an integer')
+            nums[a] = val
+        elif col == 3:
+            if val is not IDS or a in idcol:
+                _fail(st, 'column 3 must receive self.elements.ids, once')
+            idcol[a] = True
         else:
-            c = _const_int(col)
-            if c == 4:
-                if a in nums:
-                    _fail(st, 'face number assigned twice')
-                nums[a] = _const_int(st.value)
-            elif c == 3:
-                v = st.value
-                if not (isinstance(v, ast.Attribute) and v.attr == 'ids'):
-                    _fail(st, 'column 3 must receive self.elements.ids')
-                idcol[a] = True
+            _fail(st, f'unexpected column {col!r}')
+
+    def run(body, env):
+        for st in body:
+            if isinstance(st, ast.Assign) and len(st.targets) == 1 and isinstance(st.targets[0], ast.Subscript) \
+                    and isinstance(st.targets[0].value, ast.Name) and st.targets[0].value.id == 'surfs':
+                if state['sealed']:
+                    _fail(st, 'store into surfs after it was sorted / rebound')
+                store(st, env)
+            elif isinstance(st, ast.Assign) and len(st.targets) == 1 and isinstance(st.targets[0], ast.Name):
+                name = st.targets[0].id
+                if name == 'surfs' and cols:
+                    state['sealed'] = True
+                try:
+                    env[name] = interp.ev(st.value, env)
+                except TranslateError:
+                    env[name] = OPAQUE
+            elif isinstance(st, ast.For) and not st.orelse and _stores_to(st, 'surfs'):
+                it = interp.ev(st.iter, env)
+                if not _is_seq(it):
+                    _fail(st, 'loop that fills surfs must run over a constant table')
+                for v in it:
+                    interp._bind(st.target, v, env)
+                    run(st.body, env)
+            elif isinstance(st, ast.Expr):
+                # surfs[:, :3].sort(axis=1) etc.: the table part is over
+                if cols and any(isinstance(x, ast.Name) and x.id == 'surfs' for x in ast.walk(st)):
+                    state['sealed'] = True
+            elif _stores_to(st, 'surfs'):
+                _fail(st, 'store into surfs inside a statement that is not understood')
+            elif isinstance(st, ast.Return):
+                return
             else:
-                _fail(st, f'unexpected column {c}')
+                for x in ast.walk(st):
+                    if isinstance(x, ast.Name) and isinstance(x.ctx, ast.Store):
+                        env[x.id] = OPAQUE
+    run(fn.body, {'self': SELF})
     ks = sorted(cols)
     if not ks or ks != list(range(len(ks))) or sorted(nums) != ks or sorted(idcol) != ks:
-        raise TranslateError('extract_surface_fistr: incomplete face table ' + repr((cols, nums, idcol)))
+        raise TranslateError('extract_surface_fistr: incomplete face table ' + repr((cols, nums, sorted(idcol))))
     if any(len(c) != 3 for c in cols.values()):
         raise TranslateError('extract_surface_fistr: faces must have 3 nodes')
+    if any(i < 0 for c in cols.values() for i in c) or any(n < 0 for n in nums.values()):
+        raise TranslateError('extract_surface_fistr: negative column / face number')
     return [(nums[k], cols[k]) for k in ks]
+
+
+def region_hashes(repo):
+    """sha256 of the two translated regions (available also when the translation fails)"""
+    src = (Path(repo) / 'femio' / 'graph_processor.py').read_text()
+    tree = ast.parse(src)
+    lines = src.splitlines()
+    return {'femio/graph_processor.py:' + n: region_sha(lines, _find_method(tree, CLASS, n))
+            for n in ('_generate_all_faces', 'extract_surface_fistr')}
 
 
 def region_sha(src_lines, fn):
@@ -269,14 +728,20 @@ def translate(repo):
     src = path.read_text()
     tree = ast.parse(src)
     lines = src.splitlines()
-    gaf = _find_method(tree, 'GraphProcessorMixin', '_generate_all_faces')
-    fis = _find_method(tree, 'GraphProcessorMixin', 'extract_surface_fistr')
-    tables = translate_generate_all_faces(gaf)
-    fistr = translate_fistr(fis)
+    mod = Module(tree, lines)
+    interp = Interp(mod)
+    gaf = _find_method(tree, CLASS, '_generate_all_faces')
+    fis = _find_method(tree, CLASS, 'extract_surface_fistr')
+    try:
+        tables = translate_generate_all_faces(gaf, interp)
+        fistr = translate_fistr(fis, interp)
+    except RecursionError:
+        raise TranslateError('recursion limit while evaluating the face tables')
     consumed = {
         'femio/graph_processor.py:_generate_all_faces': region_sha(lines, gaf),
         'femio/graph_processor.py:extract_surface_fistr': region_sha(lines, fis),
     }
+    consumed.update(mod.used)
     return {'tables': tables, 'fistr': fistr}, consumed
 
 
